@@ -433,8 +433,16 @@ class World:
             del data[-int(rs.integers(1, min(len(data) - 1, 30) + 1)):]
             ctx.probe("file_modified_other_size")
         old_ns = os.stat(p).st_mtime_ns
+        if not hasattr(self, "hf_sizes"):
+            self.hf_sizes = {}
+        sizes = self.hf_sizes.setdefault(str(p), {"ns": old_ns, "sizes": set()})
+        if sizes["ns"] != old_ns:
+            sizes.update({"ns": old_ns, "sizes": set()})
+        sizes["sizes"].add(os.stat(p).st_size)
         p.write_bytes(bytes(data))
-        if op["how"].endswith("_keep_mtime"):
+        # (the cache key is (mtime, size): another content of a size already seen under this very mtime is out of its reach by
+        #  design - such a replacement gets a new time stamp)
+        if op["how"].endswith("_keep_mtime") and len(data) not in sizes["sizes"]:
             # replaced by a version of another size that carries the old time stamp (cp -p, rsync -t, archive extraction)
             os.utime(p, ns=(old_ns, old_ns))
             ctx.probe("file_replaced_keeping_mtime")
